@@ -509,11 +509,10 @@ fn follow_family(ctx: &Ctx, report: &mut Report) -> Result<(), String> {
     let queries = grid(ctx.tier.is_thorough());
     // delivery orders: A leads with k blocks, B overtakes, A overtakes again
     let leads: Vec<usize> = vec![1, 2, 3, 4];
-    for (li, lead) in leads.iter().enumerate() {
-        if !ctx.mine(li as u64) {
-            continue;
-        }
-        let rig = boot(ctx, &format!("follow-{lead}"))?;
+    // delivery orders: the four "first lead" orders; in the thorough tier every interleaving of the
+    // two branches (each branch in its own order)
+    let mut all_orders: Vec<(String, Vec<(String, &BlockView)>)> = vec![];
+    for lead in leads.iter() {
         let mut order: Vec<(String, &BlockView)> = vec![];
         for n in 0..*lead {
             order.push((format!("a{}", n + 1), &u.a[n]));
@@ -524,7 +523,30 @@ fn follow_family(ctx: &Ctx, report: &mut Report) -> Result<(), String> {
         for n in *lead..u.a.len() {
             order.push((format!("a{}", n + 1), &u.a[n]));
         }
-        let label = json!({"family": "follow", "first_lead": lead});
+        all_orders.push((format!("lead-{lead}"), order));
+    }
+    if ctx.tier.is_thorough() {
+        for (k, o) in crate::props::c01::orders(u.a.len(), u.b.len()).into_iter().enumerate() {
+            let (mut ia, mut ib) = (0, 0);
+            let mut order: Vec<(String, &BlockView)> = vec![];
+            for take_a in o {
+                if take_a {
+                    order.push((format!("a{}", ia + 1), &u.a[ia]));
+                    ia += 1;
+                } else {
+                    order.push((format!("b{}", ib + 1), &u.b[ib]));
+                    ib += 1;
+                }
+            }
+            all_orders.push((format!("interleaving-{k}"), order));
+        }
+    }
+    for (li, (lead, order)) in all_orders.into_iter().enumerate() {
+        if !ctx.mine(li as u64) {
+            continue;
+        }
+        let rig = boot(ctx, &format!("follow-{lead}"))?;
+        let label = json!({"family": "follow", "order": lead});
         let mut trace = vec![];
         // the indexer starts from nothing: first pass indexes genesis
         rig.svc.verif_sync_once();
@@ -543,11 +565,11 @@ fn follow_family(ctx: &Ctx, report: &mut Report) -> Result<(), String> {
             report.transitions += 1;
             let step = format!("after {}", trace.join(" "));
             ask_all(&rig, &r, &queries, &step, &label, report);
-            report.states.insert(fp(&(lead, &trace)));
+            report.states.insert(fp(&(&lead, &trace)));
             report.outcomes.insert(fp(&(r.live.len(), r.history.len())));
         }
         report.traces += 1;
-        report.sample(json!({"family": "follow", "first_lead": lead, "deliveries": trace, "queries_per_step": queries.len(), "final_live_cells": reference(&rig.node.main_chain()).live.len()}));
+        report.sample(json!({"family": "follow", "order": lead, "deliveries": trace, "queries_per_step": queries.len(), "final_live_cells": reference(&rig.node.main_chain()).live.len()}));
         let _ = &rig.cons;
         rig.node.shutdown();
     }
@@ -622,7 +644,7 @@ pub fn meta(tier: Tier) -> Meta {
     Meta {
         id: "C18",
         level: "model_checking",
-        rule: "universe: two branches from genesis (6 and 5 blocks) whose transactions create cells under four lock-args (\"\", ab, abc, abd) and two type-args (ab, abc) of one code hash, with data of length 0..6, a cell created and consumed in the same block, multi-input spends. follow family: a real node receives a1..a_k, b1..b_(k+1) (reorg), a_(k+1).. (reorg back) for every first lead k; after every delivery the real IndexerService (secondary DB of the node) runs one pass of the production sync loop, then EVERY query of the grid is asked through IndexerHandle: script args in {\"\", a, ab, abc, abd, zz} x lock/type x prefix/exact x {no filter, other-script filter ab / empty, block ranges [0,3) [3,4) [4,max) [3,3), capacity ranges, data length ranges, data prefix} x asc/desc; get_cells with limit 1, 2, 1000 and cursor continuation to exhaustion, get_cells_capacity, get_transactions ungrouped with limit 1, 3, 1000 and grouped with limit 2; oracle = the same filter over a plain replay of the main chain (live cells / per-script input-output history), ordered by (script bytes, block, tx index, io index[, io type]); tip equal. inversion family: explicit append / rollback walks on each branch (every rollback depth <= 4 after every append, retention 100 and 2): raw store image (all rows queries read; the ConsumedOutPoint undo log excluded) after rollback = image before the append (long retention), re-append = same image, answers = reference in both.",
+        rule: "universe: two branches from genesis (6 and 5 blocks) whose transactions create cells under four lock-args (\"\", ab, abc, abd) and two type-args (ab, abc) of one code hash, with data of length 0..6, a cell created and consumed in the same block, multi-input spends. follow family: a real node receives a1..a_k, b1..b_(k+1) (reorg), a_(k+1).. (reorg back) for every first lead k (thorough: additionally every interleaving of the two branches, 462 orders); after every delivery the real IndexerService (secondary DB of the node) runs one pass of the production sync loop, then EVERY query of the grid is asked through IndexerHandle: script args in {\"\", a, ab, abc, abd, zz} x lock/type x prefix/exact x {no filter, other-script filter ab / empty, block ranges [0,3) [3,4) [4,max) [3,3), capacity ranges, data length ranges, data prefix} x asc/desc; get_cells with limit 1, 2, 1000 and cursor continuation to exhaustion, get_cells_capacity, get_transactions ungrouped with limit 1, 3, 1000 and grouped with limit 2; oracle = the same filter over a plain replay of the main chain (live cells / per-script input-output history), ordered by (script bytes, block, tx index, io index[, io type]); tip equal. inversion family: explicit append / rollback walks on each branch (every rollback depth <= 4 after every append, retention 100 and 2): raw store image (all rows queries read; the ConsumedOutPoint undo log excluded) after rollback = image before the append (long retention), re-append = same image, answers = reference in both.",
         assumptions: &["the RocksDB indexer only: the rich indexer (sqlite, async) is not driven", "script_search_mode partial is refused by this indexer (by design) and not part of the grid", "the tx-pool overlay (index_tx_pool) is off"],
         bounds: json!({"queries": grid(tier.is_thorough()).len(), "first_leads": [1, 2, 3, 4]}),
     }
